@@ -244,4 +244,28 @@ theorem abs_make_ep_easy (K : Keys) {b : Board} {m : Move} (g : GenMove b m) :
         split at hdiff <;> omega
       rw [this]; rfl
 
+/-! ### glue for the full C02 statement -/
+
+theorem pos_ext {p q : Pos} (h1 : p.men = q.men) (h2 : p.turn = q.turn) (h3 : p.rights = q.rights)
+    (h4 : p.ep = q.ep) (h5 : p.halfmove = q.halfmove) (h6 : p.fullmove = q.fullmove) : p = q := by
+  cases p; cases q; simp_all
+
+/-- `Rules.apply` differs from `Rules.applyCore` in the en-passant target only. -/
+theorem apply_fields (p : Pos) (mv : Mv) :
+    (Rules.apply p mv).men = (applyCore p mv).men ∧ (Rules.apply p mv).turn = (applyCore p mv).turn ∧
+    (Rules.apply p mv).rights = (applyCore p mv).rights ∧ (Rules.apply p mv).halfmove = (applyCore p mv).halfmove ∧
+    (Rules.apply p mv).fullmove = (applyCore p mv).fullmove := by
+  unfold Rules.apply
+  simp only []
+  split <;> exact ⟨rfl, rfl, rfl, rfl, rfl⟩
+
+/-- once the en-passant targets agree, the whole successor position is the rule book's. -/
+theorem abs_make_eq_apply_of_ep (K : Keys) {b : Board} {m : Move} (g : GenMove b m)
+    (hep : (abs (b.makeMove K m).1).ep = (Rules.apply (abs b) (decodeMove m)).ep) :
+    abs (b.makeMove K m).1 = Rules.apply (abs b) (decodeMove m) := by
+  obtain ⟨a1, a2, a3, a4, a5⟩ := apply_fields (abs b) (decodeMove m)
+  exact pos_ext ((abs_make_men K g).trans a1.symm) ((abs_make_turn K b m).trans a2.symm)
+    ((abs_make_rights K g).trans a3.symm) hep ((abs_make_halfmove K g).trans a4.symm)
+    ((abs_make_fullmove K b m).trans a5.symm)
+
 end ChessVerif.AbsMake
